@@ -46,6 +46,8 @@ Stmt(c, jv) ==
   CASE c = "all"    -> [cols |-> <<Cx>>, rows |-> [i \in 1..3 |-> <<Lines[i]>>], table |-> FALSE]
     [] c = "join"   -> [cols |-> <<Cx, Cy>>, rows |-> IF jv = 1 THEN <<<<Lines[1], P1(112)>>, <<Lines[1], P1(113)>>, <<Lines[3], P1(114)>>>>
                                                         ELSE <<<<Lines[1], Lines[1]>>, <<Lines[1], Lines[1]>>, <<Lines[3], Lines[3]>>>>, table |-> FALSE]
+    \* join2: the same joined table and file, ON another column of it (t.x = j.y): no partner under the first definition of j, the partners of `join` under the second
+    [] c = "join2"  -> [cols |-> <<Cx, Cy>>, rows |-> IF jv = 1 THEN <<>> ELSE <<<<Lines[1], Lines[1]>>, <<Lines[1], Lines[1]>>, <<Lines[3], Lines[3]>>>>, table |-> FALSE]
     [] c = "count"  -> [cols |-> <<Cn>>, rows |-> <<<<IntV(3)>>>>, table |-> TRUE]
     [] c = "group"  -> [cols |-> <<Cx, Cn>>, rows |-> [i \in 1..3 |-> <<Lines[i], IntV(1)>>], table |-> TRUE]
     [] c = "limit1" -> [cols |-> <<Cx>>, rows |-> <<<<Lines[1]>>>>, table |-> FALSE]
@@ -54,7 +56,7 @@ Stmt(c, jv) ==
     [] c = "rea"    -> [cols |-> <<Cx>>, rows |-> <<<<Lines[1]>>, <<Lines[2]>>>>, table |-> FALSE]
     [] c = "reb"    -> [cols |-> <<Cx>>, rows |-> <<<<Lines[3]>>>>, table |-> FALSE]
 NeedsW(c) == c \in {"selw", "dist"}
-IsStmt(c) == c \in {"all", "join", "count", "group", "limit1", "selw", "dist", "rea", "reb"}
+IsStmt(c) == c \in {"all", "join", "join2", "count", "group", "limit1", "selw", "dist", "rea", "reb"}
 
 VARIABLES session, format,      \* the environment's choices
           i,                    \* lines of the session already read
@@ -83,7 +85,7 @@ Init ==
 \* The final table of an aggregate is printed as a single result: no empty line.
 Printed(s, c) ==
   LET recs == [j \in 1..Len(s.rows) |-> Rec(s.cols, s.rows[j])]
-      body == IF c = "join" THEN <<recs[1], recs[2], Blank, recs[3]>> ELSE recs
+      body == IF c \in {"join", "join2"} /\ Len(recs) = 3 THEN <<recs[1], recs[2], Blank, recs[3]>> ELSE recs
   IN (IF format = "csv" /\ s.rows # <<>> THEN <<Hdr(s.cols)>> ELSE <<>>) \o body
 
 Step ==
